@@ -16,6 +16,7 @@ import (
 	"syscall"
 	"time"
 
+	"verifsim/choice"
 	"verifsim/gen"
 	"verifsim/simrt"
 )
@@ -67,6 +68,9 @@ type World struct {
 	// AbsInputs: the input files are created under a stable absolute root (outside cwd) and every
 	// relative -i pattern is given to the command as an absolute path below that root
 	AbsInputs bool `json:"abs_inputs,omitempty"`
+	// MetaSeed (non-zero): the input files get drawn modification times (some newer than -o, some in the
+	// future), drawn permission bits and are created in a drawn order: same contents, other metadata
+	MetaSeed uint64 `json:"meta_seed,omitempty"`
 
 	Cfg   *gen.Cfg `json:"cfg,omitempty"`   // the model the files were rendered from (when there is one)
 	Class string   `json:"class,omitempty"` // generator's note: valid / defect class / layout class
@@ -400,11 +404,20 @@ func Exec(t Target, w *World) *Result {
 	for _, d := range w.Dirs {
 		must(os.MkdirAll(inPath(d), 0755))
 	}
-	for _, f := range w.Files {
+	files := append([]InFile{}, w.Files...)
+	if w.MetaSeed != 0 {
+		for i := len(files) - 1; i > 0; i-- {
+			j := int(choice.Mix(w.MetaSeed, uint64(i)) % uint64(i+1))
+			files[i], files[j] = files[j], files[i]
+		}
+	}
+	for fi, f := range files {
 		must(os.MkdirAll(filepath.Dir(inPath(f.Path)), 0755))
 		mode := os.FileMode(0644)
 		if f.Mode != 0 {
 			mode = os.FileMode(f.Mode)
+		} else if w.MetaSeed != 0 {
+			mode = []os.FileMode{0600, 0644, 0664, 0444, 0755, 0640}[choice.Mix(w.MetaSeed, uint64(1000+fi))%6]
 		}
 		switch f.Kind {
 		case "dangling-link":
@@ -417,9 +430,14 @@ func Exec(t Target, w *World) *Result {
 	}
 	// the inputs were written long ago, whatever is at -o is more recent (as after any earlier build)
 	past := time.Now().Add(-2 * time.Hour)
-	for _, f := range w.Files {
+	for fi, f := range files {
 		if f.Kind == "" {
-			_ = os.Chtimes(inPath(f.Path), past, past)
+			at := past
+			if w.MetaSeed != 0 {
+				// from ten days ago to one day ahead
+				at = time.Now().Add(-240*time.Hour + time.Duration(choice.Mix(w.MetaSeed, uint64(2000+fi))%(264*3600))*time.Second)
+			}
+			_ = os.Chtimes(inPath(f.Path), at, at)
 		}
 	}
 	if w.CwdGo {
